@@ -74,6 +74,12 @@ P = {'id': 'C05',
              'through it',
              'spec-only cells (direct BTreeSet oracle, no mechanism model): NestedTrieDawg (Trie::insert and build_from_keys), SimpleDawg, ParallelLoudsTrie '
              '(single-threaded tokio runtime)',
+             'oracle only, inside the same histories (no step of the models: replayed in Coq as an insert or as a no-op): the secondary entry points - '
+             'insert_and_get_node_id / Trie::insert of the wrappers / insert_with_token / bulk_insert, Trie::contains / Trie::lookup / *_with_token / '
+             'parallel_contains / parallel_process, PrefixIterable / parallel_prefix_search, the walk over root / transitions / is_final, lookup_node_id + '
+             'restore_string, the double-array accessors, is_empty, stats().num_keys, shrink_to_fit / refresh_replicas, bulk rebuild through every builder / '
+             'build_from_keys / from_trie / merge_tries, clear; the varied cells (every configuration field and constructor drawn from boundary values) run the '
+             'modelled storages and take their turn in the Coq replay; key sets of up to 70000 keys / more than 2^16 nodes are oracle only',
              'histories whose keys exceed 100 bytes are not replayed on the node-vector and LOUDS models (the double-array and hash-map models replay every '
              'generated length); state ids are unbounded nat / N in the models; the u32 words of the double array are N with & | and saturating_add written '
              'out'],
@@ -104,4 +110,4 @@ P = {'id': 'C05',
               'differential check on operation histories by vm_compute + BTreeSet differential oracle for all cells',
  'explanation': 'Unbounded refinement theorems for the Patricia, double-array, sparse (two models) and LOUDS storages as written and for the default FSA walk; '
                 'differential oracle for every TrieStrategy preset, custom config and legacy wrapper; stubs and missing remove recorded as narrow finding '
-                'classes; six small defects repaired by fix: commits (one of them, the relocation limit of the double array, predicted by the model and confirmed by a scratch probe).'}
+                'classes; eleven small defects repaired by fix: commits (one of them, the relocation limit of the double array, predicted by the model and confirmed by a scratch probe; five found by widening the oracle to the secondary entry points).'}
